@@ -91,7 +91,9 @@ def generate(rng, n, tier):
             c = make(op, [a], f)
             if c is not None:
                 cases.append(c)
-    for s in ["1", " 12 ", "-3", "+7", "1_0", "_1", "1__0", "", "abc", "1.5", "0x10", "١٢", "12 3", "\t5\n"]:
+    for s in ["1", " 12 ", "-3", "+7", "1_0", "_1", "1__0", "", "abc", "1.5", "0x10", "١٢", "12 3", "\t5\n",
+              "1\x1f", "\x1c1", "\x1d 1 \x1e", "\x0b7\x0c", "9" * 4300, "9" * 4301, "0" * 4300 + "1", "1_" * 4300 + "1",
+              "-" + "9" * 4301, "  " + "1" * 4300 + "  "]:
         c = make("int", [s], lambda t: int(t))
         if c is not None:
             cases.append(c)
